@@ -69,6 +69,14 @@ func genSpecialUser(t *rapid.T, n int) world.UserSpec {
 	}
 	u := world.UserSpec{UserID: fmt.Sprintf("uid-%d", n), LoginName: fmt.Sprintf("login%d@users.example", n),
 		Email: opt("email"), FullName: opt("fullname"), GivenName: opt("given"), Surname: opt("surname"), Username: opt("username"), UserIDAttr: opt("useridattr")}
+	if rapid.IntRange(0, 9).Draw(t, "bare") == 0 {
+		// a record with nothing but (perhaps) a user name: the attribute statement is empty
+		u.Email, u.FullName, u.GivenName, u.Surname, u.UserIDAttr = "", "", "", "", ""
+		if rapid.Bool().Draw(t, "bare-no-username") {
+			u.Username = ""
+		}
+		return u
+	}
 	nc := rapid.IntRange(0, 3).Draw(t, "ncustom")
 	seen := map[string]bool{}
 	for i := 0; i < nc; i++ {
@@ -146,6 +154,9 @@ func genC04Case(t *rapid.T) C04Case {
 			if u.Email != "" {
 				q.Attrs = append(q.Attrs, spsim.QAttr{Name: "Email", NameFormat: "urn:oasis:names:tc:SAML:2.0:attrname-format:basic", FriendlyName: A})
 			}
+		} else if rapid.IntRange(0, 3).Draw(t, "nomatch") == 0 {
+			// only attributes the user does not have: the answer is an assertion with an empty attribute statement
+			q.Attrs = []spsim.QAttr{{Name: "NoSuchAttribute", NameFormat: "urn:oasis:names:tc:SAML:2.0:attrname-format:basic", FriendlyName: A}}
 		}
 		c.Query = q
 	}
